@@ -9,7 +9,9 @@
   `[p0, p0+1, p2, p2+1, …]`, the quad/hexahedron reorder with the index maps taken from the
   regenerated source tables, Python's negative list index for a grid without any non-zero extent.
 
-  Coordinates are `Int` unit counts (1 unit = 2^-1074, see F64.lean).  The image-data point formula
+  Coordinates are `Int` unit counts; the image-data description carries the number `U` of fractional bits
+  of its unit (1 unit = 2^-U; U = 1074 is the unit of F64.lean, the driver uses the smallest U that makes all
+  numbers of a case whole).  The image-data point formula
   `origin + basis · (spacing ∘ (i,j,k))` is evaluated EXACTLY; `imageExact` says whether every
   intermediate result is a whole number of units and `smallDyadic` is the (decidable, sufficient)
   condition under which every intermediate result is representable in binary64, so that the
@@ -122,27 +124,32 @@ def gridConnectivity (k : GridKind) (ext : List Nat) (ct : String) : Option (Lis
 /-! ### points -/
 
 /-- exact product of two unit counts, in units (floor if not a whole number of units) -/
-def mulU (a b : Int) : Int := (a * b) / (2 : Int) ^ UNIT
+def mulU (U : Nat) (a b : Int) : Int := (a * b) / (2 : Int) ^ U
 
-def mulUExact (a b : Int) : Bool := (a * b) % (2 : Int) ^ UNIT == 0
+def mulUExact (U : Nat) (a b : Int) : Bool := (a * b) % (2 : Int) ^ U == 0
 
-def dotU : List Int → List Int → Int
-  | a :: as, b :: bs => mulU a b + dotU as bs
+def dotU (U : Nat) : List Int → List Int → Int
+  | a :: as, b :: bs => mulU U a b + dotU U as bs
   | _, _ => 0
 
 /-- `origin + basis.dot(spacing * ituple)` evaluated exactly -/
-def imagePoint (origin : List Int) (basis : List (List Int)) (spacing : List Int) (it : List Nat) : List Int :=
-  let v := List.zipWith (fun s (i : Nat) => s * (i : Int)) spacing it
-  List.zipWith (fun o row => o + dotU row v) origin basis
+def imagePointZ (U : Nat) (origin : List Int) (basis : List (List Int)) (spacing : List Int) (idx : List Int) : List Int :=
+  let v := List.zipWith (· * ·) spacing idx
+  List.zipWith (fun o row => o + dotU U row v) origin basis
 
-def imagePointExact (basis : List (List Int)) (spacing : List Int) (it : List Nat) : Bool :=
-  let v := List.zipWith (fun s (i : Nat) => s * (i : Int)) spacing it
-  basis.all fun row => (List.zipWith mulUExact row v).all id
+/-- the point of lattice position `it` (the code multiplies `spacing` with the tuple of the position
+    counted from 0, whatever the `Extent` attribute of a file says) -/
+def imagePoint (U : Nat) (origin : List Int) (basis : List (List Int)) (spacing : List Int) (it : List Nat) : List Int :=
+  imagePointZ U origin basis spacing (it.map Int.ofNat)
+
+def imagePointExact (U : Nat) (basis : List (List Int)) (spacing : List Int) (idx : List Int) : Bool :=
+  let v := List.zipWith (· * ·) spacing idx
+  basis.all fun row => (List.zipWith (mulUExact U) row v).all id
 
 /-- `ImageMesh.points` -/
-def imagePoints (ext : List Nat) (origin : List Int) (basis : List (List Int)) (spacing : List Int) :
+def imagePoints (U : Nat) (ext : List Nat) (origin : List Int) (basis : List (List Int)) (spacing : List Int) :
     List (List Int) :=
-  (locationsIn (ext.map (· + 1))).map (imagePoint origin basis spacing)
+  (locationsIn (ext.map (· + 1))).map (imagePoint U origin basis spacing)
 
 /-- `[arr if len(arr) > 0 else [0.0]]` (constructor of `RectilinearMesh`, also `VTRReader._get_ordinates`) -/
 def fixOrdinates (o : List Int) : List Int := if o.isEmpty then [0] else o
@@ -178,7 +185,7 @@ def readerNumPoints (cells : List Nat) : Nat := prodNat (cells.map (· + 1))
 /-! ### the mesh the three classes expose -/
 
 inductive GridGeom where
-  | image (origin : List Int) (basis : List (List Int)) (spacing : List Int)
+  | image (U : Nat) (origin : List Int) (basis : List (List Int)) (spacing : List Int)
   | rect (ords : List (List Int))
   | struct (pts : List (List Int))
 deriving Repr, DecidableEq
@@ -189,12 +196,12 @@ def GridGeom.kind : GridGeom → GridKind
   | .struct .. => .structured
 
 def gridPoints (ext : List Nat) : GridGeom → List (List Int)
-  | .image o b s => imagePoints ext o b s
+  | .image U o b s => imagePoints U ext o b s
   | .rect ords => rectPoints ords
   | .struct pts => pts
 
 def gridCtorOk (ext : List Nat) : GridGeom → Bool
-  | .image o b s => ext.length == 3 && o.length == 3 && s.length == 3 && b.length == 3 && b.all (·.length == 3)
+  | .image _ o b s => ext.length == 3 && o.length == 3 && s.length == 3 && b.length == 3 && b.all (·.length == 3)
   | .rect ords => rectCtorOk ext ords
   | .struct pts => structCtorOk ext pts && pts.all (·.length == 3)
 
@@ -228,14 +235,14 @@ def readGrid (extent : List Int) (g : GridGeom) (pfs : List PointField) (cfs : L
 /-! ### sufficient condition for exact floating-point evaluation of the image formula -/
 
 /-- `x` is a multiple of 2^-k and |x| ≤ 2^m  (x in units) -/
-def dyadicWithin (k m : Nat) (x : Int) : Bool :=
-  x % (2 : Int) ^ (UNIT - k) == 0 && x.natAbs ≤ 2 ^ (UNIT + m)
+def dyadicWithin (U k m : Nat) (x : Int) : Bool :=
+  k ≤ U && x % (2 : Int) ^ (U - k) == 0 && x.natAbs ≤ 2 ^ (U + m)
 
 /-- origin/spacing multiples of 2^-12 up to 2^10, basis entries multiples of 2^-12 up to 4, at most 2^8
     points per direction: every intermediate result of `origin + B·(spacing∘ijk)` then is a multiple of
     2^-24 below 2^24, hence has at most 48 significant bits and is representable in binary64. -/
-def smallDyadic (ext : List Nat) (origin : List Int) (basis : List (List Int)) (spacing : List Int) : Bool :=
-  ext.all (· ≤ 256) && origin.all (dyadicWithin 12 10) && spacing.all (dyadicWithin 12 10) &&
-  basis.all (·.all (dyadicWithin 12 2))
+def smallDyadic (U : Nat) (ext : List Nat) (origin : List Int) (basis : List (List Int)) (spacing : List Int) : Bool :=
+  ext.all (· ≤ 256) && origin.all (dyadicWithin U 12 10) && spacing.all (dyadicWithin U 12 10) &&
+  basis.all (·.all (dyadicWithin U 12 2))
 
 end Fc
